@@ -290,6 +290,11 @@ class World:
             before = qops._ext_enabled
             try:
                 with qops.disable_extensions():
+                    # a nested block (a helper that disables the extensions itself): leaving it must not re-enable them here
+                    with qops.disable_extensions():
+                        pass
+                    if qops._ext_enabled:
+                        f.append(("ext-block/nested-exit-re-enables", "leaving a nested disable_extensions() block re-enabled the extensions inside the outer block"))
                     if step.get("exc"):
                         raise EXC[step["exc"]]("injected in a disable_extensions block")
             except BaseException:  # noqa: BLE001
@@ -314,6 +319,14 @@ class World:
             r = cut(quantize_activation, t, q8, torch.tensor(0.05, dtype=dtype))
         elif fn == "absmax_scale":
             r = cut(absmax_scale, t, O.QT8["qint8"], [None, 0, -1][step.get("seed", 0) % 3])
+        elif fn == "dequantize_lowbit":
+            # runs the unpack kernel (optimized one if it can be loaded, python fallback otherwise): no trace either way
+            r = cut(lambda: quantize_weight(t, O.QTALL[["qint4", "qint2"][step.get("seed", 0) % 2]], 0, None).dequantize())
+        elif fn == "unpack_fallback":
+            # a call the optimized kernel refuses (int8 payload) and the python kernel serves: a handled fault, not a state change
+            r = cut(lambda: torch.ops.quanto.unpack(torch.randint(0, 16, (4, 8), generator=g).to(torch.int8), 4))
+            if isinstance(r, Raised):
+                r = None  # (whether this particular call is served is not C13's subject)
         elif fn in ("quantize", "freeze"):
             m = torch.nn.Sequential(torch.nn.Linear(8, 4), torch.nn.LayerNorm(4)).to(dtype)
             params = [(n, p, p.detach().clone(), p._version) for n, p in m.named_parameters()]
@@ -426,7 +439,7 @@ def make_machine(hook):
         def forward(self, model, seed):
             self.do({"op": "forward", "model": model, "seed": seed})
 
-        @rule(fn=st.sampled_from(["quantize", "freeze", "quantize_weight", "quantize_activation", "absmax_scale"]), seed=st.integers(0, 50))
+        @rule(fn=st.sampled_from(["quantize", "freeze", "quantize_weight", "quantize_activation", "absmax_scale", "dequantize_lowbit", "unpack_fallback"]), seed=st.integers(0, 50))
         def library_call(self, fn, seed):
             self.do({"op": "libcall", "fn": fn, "seed": seed})
 
